@@ -1277,6 +1277,109 @@ impl State {
                     format!("first={} reader1_stopped={}", a, stopped as u8)
                 })
             }
+            ["clim", plan, _ans, streams @ ..] => {
+                // one client object, several connections (`connect()` / `verif_attach_stream` called again): plan tokens
+                // `a` attach the next stream and run its reader, `A` attach it without a reader, `s<h>:<len>` send,
+                // `t<ms>` let virtual time pass; streams are `<read script>/<write script>`
+                let mut specs = vec![];
+                for st in streams.iter() {
+                    let (rd, wr) = match st.split_once('/') {
+                        Some(x) => x,
+                        None => return "bad-op".into(),
+                    };
+                    match (crate::sio::parse_revs(rd), crate::sio::parse_wevs(wr)) {
+                        (Some(a), Some(b)) => specs.push((a, b)),
+                        _ => return "bad-op".into(),
+                    }
+                }
+                let plan: Vec<String> = plan.split(',').map(|x| x.to_string()).collect();
+                let dict = self.dict.clone();
+                self.rt.block_on(async move {
+                    use crate::sio::sync_hooks;
+                    use diameter::transport::{DiameterClient, DiameterClientConfig};
+                    let _ = diameter::verif::take_events();
+                    let ulog: Arc<std::sync::Mutex<Vec<String>>> = Default::default();
+                    let mut client = DiameterClient::new("127.0.0.1:1", DiameterClientConfig { use_tls: false, verify_cert: false });
+                    let request = |h: u32, len: usize| {
+                        let mut m = DiameterMessage::new(CommandCode::CreditControl, ApplicationId::CreditControl, 0x80, h, h.wrapping_add(1000), dict.clone());
+                        m.add_avp(12, None, 0, OctetString::new(vec![0x55; len]).into());
+                        m
+                    };
+                    let count_reg = |u: &Arc<std::sync::Mutex<Vec<String>>>| u.lock().unwrap().iter().filter(|e| e.starts_with("reg:")).count();
+                    let mut specs = specs.into_iter();
+                    let mut readers: Vec<Option<tokio::task::JoinHandle<()>>> = vec![];
+                    let mut futs = vec![];
+                    let mut nsend = 0usize;
+                    for tok in plan.iter() {
+                        sync_hooks(&ulog);
+                        if tok == "a" || tok == "A" {
+                            let (rd, wr) = match specs.next() {
+                                Some(x) => x,
+                                None => return "bad-op no-stream".to_string(),
+                            };
+                            let c = readers.len();
+                            let stream = crate::sio::Scripted::new(rd, wr);
+                            {
+                                let mut sh = stream.0.lock().unwrap();
+                                sh.ulog = Some(ulog.clone());
+                                sh.tag = Some(c);
+                            }
+                            ulog.lock().unwrap().push("conn".into());
+                            let mut handler = client.verif_attach_stream(stream.clone());
+                            if tok == "a" {
+                                let d2 = dict.clone();
+                                let fut = async move {
+                                    DiameterClient::handle(&mut handler, d2).await;
+                                };
+                                readers.push(Some(tokio::spawn(crate::sio::Tagged { conn: c, ulog: ulog.clone(), fut: Box::pin(fut) })));
+                            } else {
+                                readers.push(None);
+                            }
+                        } else if let Some(ms) = tok.strip_prefix('t').and_then(|x| x.parse::<u64>().ok()) {
+                            tokio::time::sleep(std::time::Duration::from_millis(ms)).await;
+                        } else if let Some((h, len)) = tok.strip_prefix('s').and_then(|x| x.split_once(':')).and_then(|(a, b)| Some((a.parse::<u32>().ok()?, b.parse::<usize>().ok()?))) {
+                            ulog.lock().unwrap().push(format!("sb:{}", nsend));
+                            let before = count_reg(&ulog);
+                            let r = client.send_message(request(h, len)).await;
+                            sync_hooks(&ulog);
+                            let registered = count_reg(&ulog) > before;
+                            ulog.lock().unwrap().push(format!("ret:{}:{}", nsend, if r.is_ok() { "ok" } else { "err" }));
+                            nsend += 1;
+                            if registered {
+                                futs.push(r.ok());
+                            }
+                        } else {
+                            return "bad-op plan".to_string();
+                        }
+                    }
+                    let mut res: Vec<String> = vec![];
+                    for f in futs {
+                        res.push(match f {
+                            None => "none".to_string(),
+                            Some(f) => match tokio::time::timeout(std::time::Duration::from_secs(3600), f).await {
+                                Err(_) => "pending".to_string(),
+                                Ok(Ok(m)) => format!("got:{}:{}", m.get_hop_by_hop_id(), m.get_end_to_end_id()),
+                                Ok(Err(_)) => "err".to_string(),
+                            },
+                        });
+                    }
+                    let mut stopped = String::new();
+                    for r in readers {
+                        stopped.push(match r {
+                            None => '-',
+                            Some(h) => if tokio::time::timeout(std::time::Duration::from_secs(3600), h).await.is_ok() { '1' } else { '0' },
+                        });
+                    }
+                    sync_hooks(&ulog);
+                    let u = ulog.lock().unwrap();
+                    format!(
+                        "trace={} res={} stopped={}",
+                        if u.is_empty() { "-".to_string() } else { u.join(",") },
+                        if res.is_empty() { "-".to_string() } else { res.join(",") },
+                        if stopped.is_empty() { "-".to_string() } else { stopped }
+                    )
+                })
+            }
             ["cli", sends, rd, wr, _ans, late] => {
                 let (rd, wr) = match (crate::sio::parse_revs(rd), crate::sio::parse_wevs(wr)) {
                     (Some(a), Some(b)) => (a, b),
